@@ -108,13 +108,17 @@ def _val_of(zv):
 
 class SBool:
     __slots__ = ("t",)
-    __array_priority__ = 1000
 
     def __init__(self, t):
         self.t = t
 
     def __bool__(self):
-        return _CUR.branch(self.t)
+        t = self.t
+        if z3.is_true(t):
+            return True
+        if z3.is_false(t):
+            return False
+        return _CUR.branch(t)
 
     def __and__(self, o):
         if isinstance(o, SBool):
@@ -154,16 +158,16 @@ class SBool:
     __index__ = __int__
 
 
+_TRUE = z3.BoolVal(True)
+_FALSE = z3.BoolVal(False)
+
+
 def _b(t):
-    """wrap a z3 bool term; constant-fold"""
+    """wrap a z3 bool term.  Always an SBool (never a python bool): numpy object arrays of comparison results
+    must support ~ as logical negation, which python's bool does not."""
     if isinstance(t, bool):
-        return t
-    t = z3.simplify(t)
-    if z3.is_true(t):
-        return True
-    if z3.is_false(t):
-        return False
-    return SBool(t)
+        return SBool(_TRUE if t else _FALSE)
+    return SBool(z3.simplify(t))
 
 
 def And(*xs):
@@ -203,7 +207,6 @@ def Implies(a, b):
 class _SNum:
     """common arithmetic of SInt and SReal.  `t` is the z3 term, `v` the cached concrete value."""
     __slots__ = ("t", "v")
-    __array_priority__ = 1000
     is_int = False
 
     # -- helpers
@@ -359,6 +362,10 @@ def _symop(op, a, aint, b, bint):
     if op in ("<", "<=", ">", ">=", "==", "!="):
         if not bothint:
             a, b = _toreal(a, aint), _toreal(b, bint)
+            if _CUR.radical_defs:
+                fa, fb = _rad_form(a), _rad_form(b)
+                if fa is not None or fb is not None:
+                    return _rad_compare(op, a, fa, b, fb)
         if op == "<": return _b(a < b)
         if op == "<=": return _b(a <= b)
         if op == ">": return _b(a > b)
@@ -391,6 +398,81 @@ def _symop(op, a, aint, b, bint):
             return _wrap(fl, False)
         return _wrap(a - b * fl, False)
     raise Unsupported(op)
+
+
+_REV = {"<": ">", "<=": ">=", ">": "<", ">=": "<=", "==": "==", "!=": "!="}
+
+
+def _rad_form(t):
+    """(coefficient, radicand) if the term is coefficient * sqrt!k with a rational coefficient, else None"""
+    defs = _CUR.radical_defs
+    if z3.is_const(t):
+        if t.decl().kind() == z3.Z3_OP_UNINTERPRETED:
+            d = defs.get(t.get_id())
+            if d is not None:
+                return (Fraction(1), d[1])
+        return None
+    if z3.is_mul(t) and t.num_args() == 2:
+        a, b = t.arg(0), t.arg(1)
+        if z3.is_rational_value(a) or z3.is_int_value(a):
+            f = _rad_form(b)
+            if f is not None:
+                c = Fraction(a.numerator_as_long(), a.denominator_as_long()) if z3.is_rational_value(a) else Fraction(a.as_long())
+                return (c * f[0], f[1])
+    return None
+
+
+def _rad_compare(op, a, fa, b, fb):
+    """comparison with a pure radical on one or both sides, rewritten over the radicands (x >= 0 is part of the path
+    condition for every radicand), so that no radical symbol enters the path condition"""
+    if fa is not None and fa[0] == 0:
+        fa, a = None, z3.RealVal(0)
+    if fb is not None and fb[0] == 0:
+        fb, b = None, z3.RealVal(0)
+    if fa is None and fb is None:
+        return _symop(op, a, False, b, False) if False else _b(_plain_cmp(op, a, b))
+    if fa is not None and fb is not None:
+        (ca, xa), (cb, xb) = fa, fb
+        A, B = _rv(ca * ca) * xa, _rv(cb * cb) * xb
+        if ca > 0 and cb > 0:
+            return _b(_plain_cmp(op, A, B))
+        if ca < 0 and cb < 0:
+            return _b(_plain_cmp(op, B, A))
+        both_zero = z3.And(xa == 0, xb == 0)
+        if ca > 0:   # a >= 0 >= b
+            return _b({"<": _FALSE, "<=": both_zero, ">": z3.Not(both_zero), ">=": _TRUE, "==": both_zero,
+                       "!=": z3.Not(both_zero)}[op])
+        return _b({"<": z3.Not(both_zero), "<=": _TRUE, ">": _FALSE, ">=": both_zero, "==": both_zero,
+                   "!=": z3.Not(both_zero)}[op])
+    if fa is None:
+        return _rad_compare(_REV[op], b, fb, a, None)
+    ca, xa = fa
+    t = b
+    if ca < 0:
+        # -|c| sqrt(x) op t  <=>  |c| sqrt(x) rev(op) -t
+        return _rad_compare(_REV[op], None, (-ca, xa), z3.simplify(-t), None)
+    A = _rv(ca * ca) * xa
+    tt = t * t
+    if op == "<":
+        return _b(z3.And(t > 0, A < tt))
+    if op == "<=":
+        return _b(z3.And(t >= 0, A <= tt))
+    if op == ">":
+        return _b(z3.Or(t < 0, A > tt))
+    if op == ">=":
+        return _b(z3.Or(t <= 0, A >= tt))
+    if op == "==":
+        return _b(z3.And(t >= 0, A == tt))
+    return _b(z3.Not(z3.And(t >= 0, A == tt)))
+
+
+def _plain_cmp(op, a, b):
+    if op == "<": return a < b
+    if op == "<=": return a <= b
+    if op == ">": return a > b
+    if op == ">=": return a >= b
+    if op == "==": return a == b
+    return a != b
 
 
 def _wrap(t, isint):
@@ -589,6 +671,7 @@ class Explorer:
         self.decided = {}       # id of a branch condition decided on this path -> outcome
         self.radicals = {}      # radicand key -> value of its square root
         self.radical_defs = {}  # id of radical const -> (radical const, radicand term)
+        self.pending_rads = {}  # name -> (radical const, radicand): definition not yet given to the solver
         self.model = None
         self.asserted = False
         self.names = set()
@@ -597,6 +680,12 @@ class Explorer:
 
     # ---- solver plumbing
     def _check(self, *extra):
+        for x in extra:
+            if self.pending_rads:
+                n = len(self.pc)
+                self._define_radicals_in(x)
+                if len(self.pc) != n:
+                    self.model = None
         t0 = time.time()
         r = self.solver.check(*extra)
         dt = time.time() - t0
@@ -611,7 +700,20 @@ class Explorer:
             self.stats.unknown += 1
         return s
 
+    def _define_radicals_in(self, t):
+        """radical definitions are added lazily, when a radical symbol actually enters the solver"""
+        if not self.pending_rads:
+            return
+        s = t.sexpr()
+        if "sqrt!" not in s:
+            return
+        for name in list(self.pending_rads):
+            if name in self.pending_rads and (name + " " in s or name + ")" in s or s.endswith(name)):
+                r, core = self.pending_rads.pop(name)
+                self._add(z3.And(r >= 0, r * r == core))
+
     def _add(self, t):
+        self._define_radicals_in(t)
         self.pc.append(t)
         self.solver.add(t)
 
@@ -638,9 +740,14 @@ class Explorer:
     def branch(self, t):
         if z3.is_not(t):
             return not self.branch(t.arg(0))
+        if z3.is_true(t):
+            return True
+        if z3.is_false(t):
+            return False
         k = t.get_id()
         hit = self.decided.get(k)
         if hit is not None:
+            self._tick()
             return hit
         r = self._branch(t)
         self.decided[k] = r
@@ -781,8 +888,12 @@ class Explorer:
         k = len(self.radical_defs)
         r = z3.Real("sqrt!%d" % k)
         self.assumptions_used.add("sqrt arguments are non-negative")
-        self._add(z3.And(r >= 0, r * r == core))
-        self.model = None
+        nonneg = z3.simplify(core >= 0)
+        if not z3.is_true(nonneg):
+            self._add(nonneg)
+            if self._model_says(nonneg) is not True:
+                self.model = None
+        self.pending_rads[r.decl().name()] = (r, core)
         rs = SReal(r)
         self.radical_defs[r.get_id()] = (r, core)
         if ckey is not None:
@@ -848,6 +959,8 @@ class Explorer:
 
     # ---- assume / check
     def assume(self, cond):
+        if isinstance(cond, SBool) and (z3.is_true(cond.t) or z3.is_false(cond.t)):
+            cond = z3.is_true(cond.t)
         if isinstance(cond, SBool):
             self._add(cond.t)
             ms = self._model_says(cond.t)
@@ -901,6 +1014,8 @@ class Explorer:
         self.asserted = True
         if isinstance(cond, SInt):
             cond = cond != 0
+        if isinstance(cond, SBool) and (z3.is_true(cond.t) or z3.is_false(cond.t)):
+            cond = z3.is_true(cond.t)
         if not isinstance(cond, SBool):
             self.stats.checks_concrete += 1
             if not cond:
@@ -1018,6 +1133,7 @@ class Explorer:
             signal.signal(signal.SIGALRM, old)
 
     budget_key = "budget"
+    max_budget_hits = 3
 
     def _backtrack(self):
         """prepare the stack for the next path; False when the tree is exhausted"""
@@ -1080,6 +1196,8 @@ class Explorer:
                 del self.stack[self.pos:]
             if not self._backtrack():
                 return True
+            if self.stats.budget_hits >= self.max_budget_hits:
+                return False
             if max_paths is not None and n >= max_paths:
                 return False
             if deadline is not None and time.time() > deadline:
